@@ -60,27 +60,51 @@ let parse_history line =
   | _ -> failwith ("bad history line: " ^ line)
 
 (* ---------- exploration: breadth first over model states, to a fixpoint ---------- *)
-let explore ?(mode="L") prim cfg max_states out =
+let explore ?(mode="L") ?(alt_paths=false) prim cfg max_states out =
   let m = machine prim in
   let s0 = m.Base.m_init cfg in
   let key s = Marshal.to_string (m.Base.m_key s) [Marshal.No_sharing] in
-  let seen = Hashtbl.create 65537 in
+  (* seen: state -> codes of the last operation of the paths whose continuations were emitted.
+     The model state hides nothing, but an implementation that has DIVERGED internally may be in
+     different states after two paths the model identifies (e.g. a wake-up handed over by a
+     cancellation vs. delivered directly).  So a state that is re-reached by a path ending in a
+     different KIND of operation gets its outgoing transitions executed after that path too (at
+     most two alternatives per state). *)
+  let seen : (string, int list ref) Hashtbl.t = Hashtbl.create 65537 in
+  (* kind of a step: operation code and whether it woke somebody / moved a value *)
+  let kind o (ob : Base.obs) =
+    (match o with c :: _ -> int_of_n c | [] -> -1) * 4
+    + (if ob.Base.o_wake <> [] then 2 else 0) + (if ob.Base.o_val <> [] then 1 else 0) in
   let q = Queue.create () in
-  Hashtbl.add seen (key s0) (); Queue.add (s0, [], 0) q;
-  let states = ref 1 and trans = ref 0 and maxd = ref 0 and truncated = ref false in
+  Hashtbl.add seen ("-" ^ key s0) (ref [-4]); Queue.add (s0, [], 0) q;
+  let states = ref 1 and trans = ref 0 and maxd = ref 0 and truncated = ref false and alt = ref 0 in
   while not (Queue.is_empty q) do
     let (s, rpath, d) = Queue.pop q in
     if d > !maxd then maxd := d;
     List.iter (fun o ->
-      let (s', _) = m.Base.m_step s o in
+      let (s', ob) = m.Base.m_step s o in
       incr trans;
       output_string out (str_history prim cfg mode (List.rev (o :: rpath))); output_char out '\n';
-      let k = key s' in
-      if not (Hashtbl.mem seen k) then begin
+      (* a step that returns unit and wakes somebody is a hand-over (cancellation of a notified
+         waiter, unlock, release, close ...): its successor is explored as a state of its own, so
+         that chains of hand-overs are followed even where the model reaches the same state by
+         a shorter path *)
+      let handover = ob.Base.o_wake <> [] && (match ob.Base.o_res with c :: _ -> int_of_n c = 0 | [] -> false) in
+      let k = (if handover then "H" else "-") ^ key s' in
+      match Hashtbl.find_opt seen k with
+      | None ->
         if !states >= max_states then truncated := true
-        else begin Hashtbl.add seen k (); incr states; Queue.add (s', o :: rpath, d + 1) q end
-      end) (m.Base.m_enabled s)
+        else begin Hashtbl.add seen k (ref [kind o ob]); incr states; Queue.add (s', o :: rpath, d + 1) q end
+      | Some codes ->
+        if alt_paths && not (List.mem (kind o ob) !codes) && List.length !codes < 4 then begin
+          codes := kind o ob :: !codes;
+          List.iter (fun o2 ->
+            incr alt;
+            output_string out (str_history prim cfg mode (List.rev (o2 :: o :: rpath))); output_char out '\n')
+            (m.Base.m_enabled s')
+        end) (m.Base.m_enabled s)
   done;
+  ignore !alt;
   Printf.eprintf "{\"prim\":\"%s\",\"cfg\":\"%s\",\"states\":%d,\"transitions\":%d,\"depth\":%d,\"exhaustive\":%b}\n"
     prim (str_nlist cfg) !states !trans !maxd (not !truncated)
 
